@@ -116,6 +116,9 @@ def describe(rel):
     ncols = max(len(r) for r in grid) - 1
     cell = lambda f, c: (grid[idx[f]][c] if c < len(grid[idx[f]]) else "").strip()
     d = {"ncols": ncols, "bad": [], "lossless": [], "depths": [], "qmlen": []}
+    names = [cell("name", c) for c in range(1, ncols + 1)]
+    if len(set(names)) != ncols or any((not n) or n.startswith("column_") or n.endswith(".") for n in names):
+        raise RuntimeError("model assumption broken: the names shipped in %s are not distinct explicit names: %r" % (rel, names))
     for c in range(1, ncols + 1):
         d["lossless"].append(cell("lossless", c).lower() in ("1", "true", "t", "y", "yes"))
         d["depths"].append((int(cell("dwt_depth", c)), int(cell("dwt_depth_ho", c))))
@@ -164,7 +167,14 @@ def tables_file():
 
 
 # ------------------------------------------------------------------------------- concretisation
-def cell_text(field, k, arg, base, salt, other_name):
+def auto_name(t):
+    """the name generated for an unnamed value column t (1-based; the key column is spreadsheet column A)"""
+    if not 1 <= t <= 25:
+        raise RuntimeError("auto name of column %d not modelled" % t)
+    return "column_" + chr(ord("A") + t)
+
+
+def cell_text(field, k, arg, base, salt, other_name, col=0):
     E = None
     if field in ENUM_TYPE or field in VP_ENUM_TYPE:
         E = list(enum_of(ENUM_TYPE.get(field) or VP_ENUM_TYPE[field]))
@@ -198,7 +208,10 @@ def cell_text(field, k, arg, base, salt, other_name):
         src = base.strip() if base.strip().isdigit() else "7"
         return "".join(chr(0x0660 + int(ch)) for ch in src)
     if k == "odd":
-        return ['we"ird, name', "naïve ✓", "#hash", "a\nb"][salt % 4]
+        return ['we"ird, name', "naïve ✓", "#hash", "a\nb"][salt % 4] + (" %d" % col if salt % 8 >= 4 else "") + "." * col
+    if k.startswith("auto_"):
+        # an explicit name spelled like the name the reader generates for an unnamed column t
+        return ["%s", " %s", "%s\t"][salt % 3] % auto_name(int(k[5:]))
     if k == "dupname":
         return other_name
     if k in ("qm_ok", "qm_short", "qm_long"):
@@ -223,7 +236,7 @@ def apply_history(file_index, hist):
             c, f = m["c"], m["f"]
             base = grid[idx[f]][c]
             other = grid[idx["name"]][(c % ncols) + 1]
-            grid[idx[f]][c] = cell_text(f, m["k"], m["arg"], base, salt, other)
+            grid[idx[f]][c] = cell_text(f, m["k"], m["arg"], base, salt, other, c)
         else:
             s = m["s"]
             if s[0] == "extra":
@@ -300,13 +313,34 @@ def project(out):
     return cols, keys, shape_ok
 
 
+def given_columns(path):
+    """The driver's own reading of the text (opened exactly as it is opened for the reader): one entry per
+    column that has at least one non-empty value cell in a row whose key cell is neither empty nor a comment,
+    saying whether the column has an explicit name.  Projection of the INPUT; the rule is in the trace spec."""
+    cols = {}
+    try:
+        with open(path, "r", encoding="utf-8-sig") as f:
+            for row in csv.reader(f):
+                if not row:
+                    continue
+                key = row[0].strip()
+                if not key or key.startswith("#"):
+                    continue
+                for i, v in enumerate(row[1:]):
+                    if v.strip():
+                        cols.setdefault(i, {})[key] = v.strip()
+    except csv.Error:
+        return []
+    return [{"named": "name" in cols[i], "name": cols[i].get("name", "")} for i in sorted(cols)]
+
+
 def run_text(text, oversize=False):
     from vc2_conformance.codec_features import read_codec_features_csv, InvalidCodecFeaturesError
 
     p = tmp_path()
     with open(p, "w", encoding="utf-8", newline="") as f:
         f.write(text)
-    ev = {"exc": "none", "cols": [], "keys": [], "shape_ok": True}
+    ev = {"exc": "none", "cols": [], "keys": [], "shape_ok": True, "given": given_columns(p)}
     try:
         with open(p, "r", encoding="utf-8-sig") as f:  # as vc2-test-case-generator's FileType("r", encoding="utf-8-sig")
             out = read_codec_features_csv(f)
@@ -416,6 +450,8 @@ def judge(ctx, events, tables, name):
         if b["alarm"]:
             detail = e["exc"] if b["clause"] == "OtherException" else ""
             sig = "C28|%s|%s" % (b["clause"], detail.split(":")[0] if detail else "returned-value")
+            if b["clause"] == "OneConfigurationPerColumn":
+                detail = "text accepted, %d configurations returned (%r) for %d non-empty columns (%r): columns were silently dropped / merged, the names of the given configurations were not unique" % (len(e["cols"]), e["keys"], len(e["given"]), [g["name"] if g["named"] else None for g in e["given"]])
             ctx.violation(sig, "read_codec_features_csv on %s: clause %s (%s)" % (e["case"], b["clause"], detail or "returned configuration outside its documented domain"), e["case"])
         else:
             dis += 1
@@ -439,12 +475,29 @@ def selftest_binding(tables):
     cols[0] = dict(cols[0], pb_none=True)
     corrupt["cols"] = cols
     corrupt["tid"] = 3
-    send = [dict((k, v) for k, v in e.items() if k != "case") for e in (ev, good, corrupt)]
+    # a reader that lets a later column silently replace an earlier one (here: drops the first configuration)
+    orig_read = cf.read_codec_features_csv
+
+    def dropping(csvfile):
+        out = orig_read(csvfile)
+        out.pop(next(iter(out)))
+        return out
+
+    cf.read_codec_features_csv = dropping
+    try:
+        dropped = exec_case({"file": 1, "hist": [{"m": "cell", "c": 2, "f": "name", "k": "empty", "arg": 0}], "pred": "ok"}, 4)
+    finally:
+        cf.read_codec_features_csv = orig_read
+    send = [dict((k, v) for k, v in e.items() if k != "case") for e in (ev, good, corrupt, dropped)]
     bad, _ = trace.validate("CodecFeaturesCsvTrace", send, extra_files=[tables])
     got = sorted((b["line"], b["clause"], b["alarm"]) for b in bad)
-    if got != [(1, "IntegerMinimum", True), (3, "PictureBytesIffLossy", True)]:
+    if got != [(1, "IntegerMinimum", True), (3, "PictureBytesIffLossy", True), (4, "OneConfigurationPerColumn", True)]:
         raise RuntimeError("binding self-test failed: %r" % (got,))
-    return {"mutant": "parse_int_at_least without the minimum check (in-process monkeypatch) on slices_x = 0", "verdict": "IntegerMinimum", "trace": "setting pb_none on a recorded lossy configuration is rejected by clause PictureBytesIffLossy"}
+    return {
+        "mutant": "parse_int_at_least without the minimum check (in-process monkeypatch) on slices_x = 0; read_codec_features_csv that drops one configuration (in-process wrapper) on a file with an unnamed column",
+        "verdict": "IntegerMinimum; OneConfigurationPerColumn",
+        "trace": "setting pb_none on a recorded lossy configuration is rejected by clause PictureBytesIffLossy",
+    }
 
 
 def run(ctx):
@@ -480,6 +533,15 @@ def run(ctx):
     guard(ctx, outcome.get("none", 0) > 0 and outcome.get("invalid", 0) > 0, "vacuity: outcomes %r" % (outcome,))
     nonbase_ok = sum(1 for e in events if e["exc"] == "none" and e["case"]["hist"])
     guard(ctx, nonbase_ok > 0, "vacuity: no mutant was accepted, the domain clauses were never evaluated on a mutant")
+    # name model: unnamed columns accepted (generated names judged), explicit look-alikes of generated names in
+    # both column orders predicted invalid and predicted ok
+    unnamed_ok = sum(1 for e in events if e["exc"] == "none" and any(not g["named"] for g in e["given"]))
+    auto = {"before_ok": 0, "before_invalid": 0, "after_ok": 0, "after_invalid": 0}
+    for e in events:
+        for m in e["case"]["hist"]:
+            if m.get("f") == "name" and m.get("k", "").startswith("auto_") and int(m["k"][5:]) != m["c"]:
+                auto[("before_" if m["c"] < int(m["k"][5:]) else "after_") + ("ok" if e["pred"] == "ok" else "invalid")] += 1
+    guard(ctx, unnamed_ok > 0 and all(v > 0 for v in auto.values()), "vacuity: unnamed columns accepted %d, look-alike names %r" % (unnamed_ok, auto))
     small = lambda e: {"case": e["case"], "pred": e["pred"], "exc": e["exc"], "columns_returned": len(e["cols"])}
     ctx.coverage.update(
         {
@@ -489,6 +551,7 @@ def run(ctx):
             "outcomes": outcome,
             "mutation_classes_used": classes,
             "mutants_accepted_and_checked_in_domain": nonbase_ok,
+            "name_model": {"accepted_texts_with_unnamed_columns": unnamed_ok, "explicit_name_spelled_like_generated_name_of_another_column": auto},
             "out_of_scope": {"oversize_cell": outcome.get("oversize_cell", 0), "note": "cells above csv.field_size_limit (131072 characters) make the csv module raise _csv.Error; counted, not judged"},
             "evaluations": len(allev),
             "distinct_nontrivial": sum(1 for e in events if len(e["case"]["hist"]) >= 2) + sum(1 for e in events if e["exc"] == "none" and e["case"]["hist"]),
